@@ -25,6 +25,18 @@ type DrainCase struct {
 	Choices []int  `json:"choices"`
 }
 
+// drainData: "xyz" cut to length for the small bodies, a position-dependent pattern for the large ones.
+func drainData(n int) []byte {
+	if n <= 3 {
+		return []byte("xyz")[:n]
+	}
+	b := make([]byte, n)
+	for i := range b {
+		b[i] = byte(i*7 + i>>8 + 3)
+	}
+	return b
+}
+
 type fixedRT struct{ body io.ReadCloser }
 
 func (f fixedRT) RoundTrip(req *http.Request) (*http.Response, error) {
@@ -33,7 +45,7 @@ func (f fixedRT) RoundTrip(req *http.Request) (*http.Response, error) {
 
 // runDrain executes one history under one chooser and checks model A.5.
 func runDrain(dc DrainCase, c *choice.Chooser) (class, what string, key string) {
-	data := []byte("xyz")[:dc.Len]
+	data := drainData(dc.Len)
 	und := &doubles.Reader{Name: "underlying", Data: data, C: c, ZeroReads: 1}
 	if dc.Term == "ERR" {
 		und.Term = doubles.ErrInjected
